@@ -875,12 +875,36 @@ def exotic_script(rng):
         L += ["(push 1)", "(assert (= c d))", "(check-sat)"] + rng.sample(qs, 2) + ["(pop 1)", "(check-sat)"]
     return [{"c": "raw", "text": t} for t in L]
 
+def wide_uf_itp_script(rng):
+    """interpolation over functions of many arguments: congruence steps justified by several argument equalities, in
+    both directions; the interpolant is a conjunction / disjunction over all of them (its order must not depend on
+    anything but the input)"""
+    n = rng.randint(3, 9)
+    L = ["(set-option :produce-interpolants true)"]
+    if rng.random() < 0.4: L.append("(set-option :interpolation-euf-algorithm %d)" % rng.choice([0, 2, 3]))
+    L += ["(set-logic QF_UF)", "(declare-sort U 0)"]
+    for fn in ("f", "g"):
+        L.append("(declare-fun %s (%s) U)" % (fn, " ".join(["U"] * n)))
+    for p_ in "abc":
+        for i in range(1, n + 1):
+            L.append("(declare-fun %s%d () U)" % (p_, i))
+    A = lambda p_: " ".join("%s%d" % (p_, i) for i in range(1, n + 1))
+    a_side = "(and (= (f %s) (g %s)) (not (= (f %s) (g %s))))" % (A("b"), A("b"), A("a"), A("a"))
+    eqs = []
+    for i in range(1, n + 1):
+        eqs += ["(= a%d c%d)" % (i, i), "(= c%d b%d)" % (i, i)] if rng.random() < 0.8 else ["(= a%d b%d)" % (i, i)]
+    if rng.random() < 0.5:
+        rng.shuffle(eqs)
+    b_side = "(and %s)" % " ".join(eqs)
+    L += ["(assert (! %s :named A))" % a_side, "(assert (! %s :named B))" % b_side, "(check-sat)", "(get-interpolants A B)", "(get-interpolants B A)"]
+    return [{"c": "raw", "text": t} for t in L]
+
 def b_rerun(job):
     """C23: the same script twice (different environment size and working directory)."""
     rng = random.Random(job["seed"])
     g = G.Gen(rng, job["logic"])
-    if rng.random() < 0.12:
-        cmds = exotic_script(rng)
+    if rng.random() < 0.2:
+        cmds = exotic_script(rng) if rng.random() < 0.6 else wide_uf_itp_script(rng)
         fam = C.Family(g)
         fam.add_run("s", "c0", "main", cmds)
         fam.add_run("s", "c0", "rerun", cmds, env={"VERIF_PAD": "x" * rng.randint(1, 5000)}, cwd="/tmp")
